@@ -61,6 +61,9 @@ pub struct Truth {
     pub pending_reason: BTreeMap<NodeId, DisconnectReason>,
     /// the service's clock: the largest time it has been ticked with
     pub clock: u64,
+    /// hook H4: timestamp of the cached inventory announcement and last timestamp handed out, as last observed
+    pub cached_inv: Option<u64>,
+    pub last_ts: u64,
 }
 
 impl Truth {
@@ -70,6 +73,8 @@ impl Truth {
         }
         self.own_seen.clear();
         self.pending_reason.clear();
+        self.cached_inv = None;
+        self.last_ts = 0;
     }
     pub fn epoch_started(&mut self, _peer: &NodeId) {}
     /// A prune may have removed rows older than `now - max_age`: forget what could be gone.
@@ -373,6 +378,31 @@ impl<'a> Sim<'a> {
         }
         self.res.trace.log("reencode-differs", format!("REENCODING DIFFERS n{node} <- {}: {} of {} bytes re-encodes to {} bytes", self.name(peer), msg_kind(msg), p.len(), re.len()));
         self.res.violate(&own, "C15", &format!("C15/inbound/reencoding-differs/{}", msg_kind(msg)), format!("n{node} decoded a {} from {} whose {} bytes re-encode to {} different bytes: a signature checked on the re-encoding is not a signature over what was sent", msg_kind(msg), self.name(peer), p.len(), re.len()));
+    }
+
+    /// C29 at the signing seam (hook H4): the counter behind own timestamps never decreases, and when the cached
+    /// inventory announcement was re-signed during the last call its timestamp is one the counter handed out
+    /// during that call (greater than everything signed before the call, and accounted for by the counter).
+    pub fn check_timestamps(&mut self, node: usize) {
+        let own = self.own.clone();
+        let Some(svc) = self.nodes[node].svc.as_ref() else { return };
+        let (inv, last) = svc.verif_timestamps();
+        let (inv, last) = (*inv, *last);
+        let prev_inv = self.nodes[node].gt.cached_inv;
+        let prev_last = self.nodes[node].gt.last_ts;
+        self.nodes[node].gt.last_ts = last;
+        self.nodes[node].gt.cached_inv = Some(inv);
+        let Some(prev_inv) = prev_inv else { return };
+        if last < prev_last {
+            self.res.violate(&own, "C29", "C29/counter-decreased", format!("n{node}: the last announcement timestamp went from {} to {}", rel_ts(prev_last), rel_ts(last)));
+        }
+        if inv == prev_inv {
+            return;
+        }
+        self.res.hit("probe.c29.cached_inventory_resigned");
+        if inv <= prev_last || inv > last {
+            self.res.violate(&own, "C29", "C29/inventory-signed-with-stale-timestamp", format!("n{node} re-signed its inventory announcement with timestamp {}, which is not one of the timestamps handed out during that call ({} .. {}]", rel_ts(inv), rel_ts(prev_last), rel_ts(last)));
+        }
     }
 
     /// The service of `node` emitted an `Io::Fetch` for `rid` from `remote`.
